@@ -1724,4 +1724,31 @@ theorem nP_bioVoters_safe (budget n : Nat) : nP (collect (bioVoters .safe budget
       rw [this, ih]
       omega
 
+/-! ## Part 18 — the order in which the members are polled does not matter -/
+
+theorem sumR_perm {l l' : List Rat} (h : l.Perm l') : sumR l = sumR l' := by
+  induction h with
+  | nil => rfl
+  | cons x _ ih => simp only [sumR, ih]
+  | swap x y l => simp only [sumR]; ring
+  | trans _ _ ih1 ih2 => exact ih1.trans ih2
+
+theorem prodR_perm {l l' : List Rat} (h : l.Perm l') : prodR l = prodR l' := by
+  induction h with
+  | nil => rfl
+  | cons x _ ih => simp only [prodR, ih]
+  | swap x y l => simp only [prodR]; ring
+  | trans _ _ ih1 ih2 => exact ih1.trans ih2
+
+theorem stratReached_perm (cfg : Cfg) (n : Nat) {vs vs' : List Vote} (h : vs.Perm vs') :
+    StratReached cfg n vs ↔ StratReached cfg n vs' := by
+  have hk : ∀ k, (ofKind k vs).length = (ofKind k vs').length := fun k => by
+    unfold ofKind; exact (h.filter _).length_eq
+  have c1 : nP vs = nP vs' := hk .permit
+  have c2 : nB vs = nB vs' := hk .block
+  have hs : ∀ f : Vote → Rat, sumR (vs.map f) = sumR (vs'.map f) := fun f => sumR_perm (h.map f)
+  have hp : ∀ f : Vote → Rat, prodR (vs.map f) = prodR (vs'.map f) := fun f => prodR_perm (h.map f)
+  unfold StratReached beliefP beliefB
+  rw [c1, c2, hs (effIf .permit), hs (effIf .block), hs (confEffIf .permit), hs (confEffIf .block), hp fP, hp fB]
+
 end Operon.Quorum
